@@ -140,7 +140,7 @@ Inserted(st, b, k, f, row) ==
   ELSE st
 
 \* what the writer stores: the row of every basic bin of the (non-TOF) data, once
-BasicSet(c, esw) == { FindBasic(c, esw, b) : b \in AllBins(c) }
+BasicSet(c, esw) == { FindBasic(c, esw, b) : b \in AllBins(c) }   \* (cylindrical data)
 NewFromFile(gen, c, g, headerSw, cacheOn, basicOnly) ==
   [NewMatrix("FromFile", headerSw, cacheOn, basicOnly) EXCEPT !.stored = gen, !.c = c, !.g = g,
                                                                !.esw = EffectiveSwitches(c, g, headerSw)]
@@ -174,8 +174,8 @@ DoSetUpRefused(st) == Out([st EXCEPT !.cache = {}, !.done = FALSE, !.gen = -1], 
 
 \* get_proj_matrix_elems_for_one_bin, step by step.  ret = NoRow: error "used before calling setup"
 DoGet(st, b) ==
-  LET bb == FindBasic(st.c, st.esw, b)
-      op == FindOp(st.c, st.g, st.esw, b)
+  LET bb == FindBasicG(st.c, st.g, st.esw, b)
+      op == FindOpG(st.c, st.g, st.esw, b)
       kb == Key(b)
       kbb == Key(bb)
       fb == FindK(st, b, kb)             \* what the map holds for the bin
@@ -210,6 +210,6 @@ GetCorrect(st, b) == LET o == DoGet(st, b) IN
   \/ o.ret = NoRow \/ o.ret = Row(st.gen, b)
   \* FromFile: the empty row, exactly when the file's row of the basic bin is not (or no longer) in the cache
   \/ /\ st.impl = "FromFile" /\ o.ret = EmptyRow(st.gen, b)
-     /\ LET bb == FindBasic(st.c, st.esw, b) IN ~(\E e \in st.cache : e.bin = bb /\ e.row = Row(st.gen, bb)) \/ ~st.cacheOn
+     /\ LET bb == FindBasicG(st.c, st.g, st.esw, b) IN ~(\E e \in st.cache : e.bin = bb /\ e.row = Row(st.gen, bb)) \/ ~st.cacheOn
 GetDefined(st, b) == st.done => DoGet(st, b).ret # NoRow
 =============================================================================
